@@ -5,9 +5,8 @@
    through (lex_ok: a backslash is followed by one of ESCAPES or the own quote, the own quote does not occur
    unescaped), made of Unicode scalar values, _decode_string_literal returns exactly the RFC value or raises
    JSONPathSyntaxError at the token, never IndexError. *)
-From JP Require Import Base.Json Spec.StringLit Model.Tokens Model.Parse Proofs.StringProofs.
+From JP Require Import Base.Json Spec.StringLit Model.Tokens Model.Lex Model.Parse Proofs.StringProofs Proofs.LexString.
 
-Definition tt_of (q : N) : ttype := if N.eqb q 39 then T_SQ_STRING else T_DQ_STRING.
 Theorem C09_decode : forall q body idx, (q = 39%N \/ q = 34%N) ->
   lex_ok q body = true -> forallb is_scalar body = true ->
   decode_string_literal {| ty := tt_of q; tval := body; tidx := idx |}
@@ -21,6 +20,31 @@ Example C09_decode_nonvacuous :
   /\ forallb is_scalar [92; 117; 100; 56; 51; 68; 92; 117; 68; 69; 48; 48; 34; 92; 39]%N = true
   /\ lex_ok 34 [92; 117; 68; 67; 48; 48]%N = true /\ spec_decode 34 [92; 117; 68; 67; 48; 48]%N = None.
 Proof. repeat split; vm_compute; reflexivity. Qed.
+
+(* The lexer's half.  In whatever state the lexer enters lex_string (stacks, tokens so far, in a filter or not),
+   if the text after the opening quote is a body the RFC derives followed by the closing quote, then within
+   |body| + 2 state transitions it has emitted one string token holding exactly that body at the position of
+   the body's first character, consumed the closing quote and nothing else, left every stack untouched - and
+   the parser decodes that token to the RFC value. *)
+Theorem C09_literal_end_to_end : forall q inf l body rest v, q = 39%N \/ q = 34%N ->
+  l_rest l = body ++ q :: rest -> spec_decode q body = Some v ->
+  exists k, (k <= length body + 2)%nat /\
+    lex_steps k (SString q inf) l = LNext (after inf) (with_string_token l q body rest) /\
+    decode_string_literal {| ty := tt_of q; tval := body; tidx := l_pos l |} = Ok v.
+Proof. exact string_literal_end_to_end. Qed.
+Print Assumptions C09_literal_end_to_end.
+
+(* Rejection.  A text after the opening quote that has no prefix of the lexer-accepted shape followed by the quote
+   stops the lexer with an ERROR token (tokenize then raises JSONPathSyntaxError); a body of that shape that the
+   RFC does not derive is rejected by the parser (C09_decode, None case). *)
+Theorem C09_lexer_rejects : forall q inf l, l_rest l <> [] -> scan q (l_rest l) [] = None ->
+  exists k, (k <= length (l_rest l) + 2)%nat /\ is_error_stop (lex_steps k (SString q inf) l).
+Proof. exact lex_string_reject. Qed.
+Print Assumptions C09_lexer_rejects.
+Theorem C09_scan_characterised : forall q s cur' rest', scan q s [] = Some (cur', rest') ->
+  exists body r, s = body ++ q :: r /\ rest' = q :: r /\ cur' = rev body ++ [] /\ lex_ok q body = true.
+Proof. intros q s cur' rest' H. exact (scan_sound q (length s) s [] cur' rest' (le_n _) H). Qed.
+Print Assumptions C09_scan_characterised.
 
 (* the shift/mask expression of _decode_hex_char equals the RFC formula for every surrogate pair:
    a finite domain (1024 x 1024), checked exhaustively by vm_compute in Proofs/StringProofs.v and lifted *)
